@@ -127,19 +127,40 @@ fn record(cfg: &Cfg, which: &str) -> Result<(PredictionModelRecord, Box<dyn Fn(f
             _ => ("2016_CHEVROLET_Volt_Charge_Sustaining.bin", EnergyRateUnit::GallonsGasolinePerMile),
         };
         let path = std::path::Path::new(REAL_DIR).join(file);
+        // the declaration of the bundled model: its speed unit, and for the electric models its rate unit, come from the
+        // configuration (mph and per mile as bundled, or units built on different distances)
+        let su = cfg.model_speed_unit;
+        let eru = match (which, cfg.rate_unit) {
+            ("bev" | "cd", EnergyRateUnit::KilowattHoursPerKilometer | EnergyRateUnit::KilowattHoursPerMeter | EnergyRateUnit::KilowattHoursPerMile) => cfg.rate_unit,
+            _ => eru,
+        };
+        let (s_lo, s_hi, s_n, g_lo, g_hi, g_n) = (0.0f64, 100.0f64, 101usize, -0.2f64, 0.2f64, 41usize);
         let mt = ModelType::Interpolate {
             underlying_model_type: Box::new(ModelType::Smartcore),
-            speed_lower_bound: Speed::new(0.0),
-            speed_upper_bound: Speed::new(100.0),
-            speed_bins: 101,
-            grade_lower_bound: Grade::new(-0.2),
-            grade_upper_bound: Grade::new(0.2),
-            grade_bins: 41,
+            speed_lower_bound: Speed::new(s_lo),
+            speed_upper_bound: Speed::new(s_hi),
+            speed_bins: s_n,
+            grade_lower_bound: Grade::new(g_lo),
+            grade_upper_bound: Grade::new(g_hi),
+            grade_bins: g_n,
         };
-        let rec = load_prediction_model(which.to_string(), &path, mt.clone(), SpeedUnit::MilesPerHour, GradeUnit::Decimal, eru, Some(EnergyRate::new(0.02)), Some(cfg.adjustment), cache).map_err(|e| e.to_string())?;
-        // reference: an independently loaded copy of the same interpolated model, queried at the table speed / grade
-        let refm = load_prediction_model(which.to_string(), &path, mt, SpeedUnit::MilesPerHour, GradeUnit::Decimal, eru, Some(EnergyRate::new(0.02)), Some(1.0), None).map_err(|e| e.to_string())?;
-        let f = move |mps: f64, dec: f64| refm.prediction_model.predict((Speed::new(mps / ru::speed_mps(&SpeedUnit::MilesPerHour)), SpeedUnit::MilesPerHour), (Grade::new(dec), GradeUnit::Decimal)).map(|r| r.0.as_f64()).unwrap_or(f64::NAN);
+        let rec = load_prediction_model(which.to_string(), &path, mt, su, GradeUnit::Decimal, eru, Some(EnergyRate::new(0.02)), Some(cfg.adjustment), cache).map_err(|e| e.to_string())?;
+        // reference: the underlying model itself, loaded separately under the same declaration and read at the four table
+        // points around the edge's speed and grade (bilinear between them, written out here)
+        let under = load_prediction_model(which.to_string(), &path, ModelType::Smartcore, su, GradeUnit::Decimal, eru, Some(EnergyRate::new(0.02)), Some(1.0), None).map_err(|e| e.to_string())?;
+        let f = move |mps: f64, dec: f64| {
+            let s = mps / ru::speed_mps(&su);
+            let ds = (s_hi - s_lo) / (s_n - 1) as f64;
+            let dg = (g_hi - g_lo) / (g_n - 1) as f64;
+            let i0 = (((s - s_lo) / ds).floor().max(0.0) as usize).min(s_n - 2);
+            let j0 = (((dec - g_lo) / dg).floor().max(0.0) as usize).min(g_n - 2);
+            let sk = |i: usize| s_lo + i as f64 * ds;
+            let gk = |j: usize| g_lo + j as f64 * dg;
+            let at = |i: usize, j: usize| under.prediction_model.predict((Speed::new(sk(i)), su), (Grade::new(gk(j)), GradeUnit::Decimal)).map(|r| r.0.as_f64()).unwrap_or(f64::NAN);
+            let ts = (s - sk(i0)) / ds;
+            let tg = (dec - gk(j0)) / dg;
+            (at(i0, j0) * (1.0 - ts) + at(i0 + 1, j0) * ts) * (1.0 - tg) + (at(i0, j0 + 1) * (1.0 - ts) + at(i0 + 1, j0 + 1) * ts) * tg
+        };
         Ok((rec, Box::new(f)))
     } else {
         let unit = match which {
@@ -488,6 +509,29 @@ fn configs(tier: Tier) -> Vec<Cfg> {
             }
         }
     }
+    // bundled models declared in units built on different distances (km/h with a rate per mile; for the battery vehicle also
+    // mph with a rate per kilometre): the recorded energy follows the declared rate unit's distance
+    for (vehicle, su, ru_) in [("ice", SpeedUnit::KilometersPerHour, EnergyRateUnit::KilowattHoursPerMile), ("bev", SpeedUnit::KilometersPerHour, EnergyRateUnit::KilowattHoursPerMile), ("phev", SpeedUnit::KilometersPerHour, EnergyRateUnit::KilowattHoursPerMile), ("bev", SpeedUnit::MilesPerHour, EnergyRateUnit::KilowattHoursPerKilometer), ("phev", SpeedUnit::MetersPerSecond, EnergyRateUnit::KilowattHoursPerKilometer)] {
+        out.push(Cfg {
+            vehicle: vehicle.into(),
+            model_speed_unit: su,
+            model_grade_unit: GradeUnit::Decimal,
+            rate_unit: ru_,
+            time_speed_unit: SpeedUnit::KilometersPerHour,
+            time_distance_unit: DistanceUnit::Kilometers,
+            time_time_unit: TimeUnit::Minutes,
+            out_distance_unit: DistanceUnit::Kilometers,
+            grade_table_unit: GradeUnit::Decimal,
+            capacity_kwh: 60.0,
+            start_soc: json!(80),
+            adjustment: 1.1,
+            cache: false,
+            cache_size: 0,
+            service_time_unit: None,
+            real_model: true,
+            key_decimals: 0,
+        });
+    }
     // cache keys with two decimals and grades that are whole key steps around zero (edge types one step apart on either
     // side of flat): synthetic and bundled models, every vehicle type
     for vehicle in ["ice", "bev", "phev"] {
@@ -608,7 +652,7 @@ pub fn run(tier: Tier) -> i32 {
     finish(
         &info,
         st,
-        "state = one powertrain configuration (ICE/BEV/PHEV x prediction-model units x time-model units x output units x battery capacity x starting charge x prediction cache {off, 64, 1, 2 entries; keys of 6 decimals, and of 2 decimals over an edge alphabet whose grades are whole key steps -2,-1,0,1} x energy model's time unit {same as the time model's, different}, synthetic smooth models incl. negative rates downhill, and the bundled Camry/Bolt/Volt models behind the interpolated model); transition = one traverse_edge of the real EnergyTraversalModel in an edge history (all sequences up to length 4 (quick) / 5 (thorough) over 12 edge types = 2 lengths x 2 speeds x 3 grades); oracle = reference energy and state-of-charge arithmetic with clamp and PHEV mode switch; non-trivial = every configuration",
+        "state = one powertrain configuration (ICE/BEV/PHEV x prediction-model units x time-model units x output units x battery capacity x starting charge x prediction cache {off, 64, 1, 2 entries; keys of 6 decimals, and of 2 decimals over an edge alphabet whose grades are whole key steps -2,-1,0,1} x energy model's time unit {same as the time model's, different}, synthetic smooth models incl. negative rates downhill, and the bundled Camry/Bolt/Volt models behind the interpolated model, declared as bundled (mph, per mile) and in units built on different distances (km/h or m/s with per mile / per kilometre); their reference is the underlying model read at the four surrounding table points); transition = one traverse_edge of the real EnergyTraversalModel in an edge history (all sequences up to length 4 (quick) / 5 (thorough) over 12 edge types = 2 lengths x 2 speeds x 3 grades); oracle = reference energy and state-of-charge arithmetic with clamp and PHEV mode switch; non-trivial = every configuration",
         true,
         json!({"configurations": n, "edge_types": n_types, "max_history_length": tier.pick(4, 5), "histories": hists_full.len()}),
         vec![
